@@ -64,8 +64,95 @@ def parse_diags(stderr, tree):
         f = m.group("file")
         rel = os.path.relpath(f, tree) if f.startswith(tree) else f
         opt = (m.group("opt") or "").replace("-Werror=", "-W").replace("-Werror,", "")
-        out.append(dict(file=rel, line=int(m.group("line")), opt=opt, msg=m.group("msg")[:220]))
+        src = ""
+        try:
+            with open(f if os.path.isabs(f) else os.path.join(tree, f), errors="replace") as fh:
+                for i, l in enumerate(fh, 1):
+                    if i == int(m.group("line")):
+                        src = l.rstrip("\n")[:300]
+                        break
+        except OSError:
+            pass
+        out.append(dict(file=rel, line=int(m.group("line")), opt=opt, msg=m.group("msg")[:220], src=src))
     return out
+
+
+_MACROS = {}
+
+
+def macros_visible(tree, rel, std):
+    """The object- and function-like macros defined once `rel` is included (the preprocessor's own list)."""
+    k = (tree, rel, std)
+    if k not in _MACROS:
+        tu = os.path.join(tree, "_m_%s.cpp" % common.sha(rel + std)[:10])
+        with open(tu, "w") as f:
+            f.write('#include "%s"\n' % rel)
+        r = common.run(["g++", "-std=" + std, "-dM", "-E", "-I", tree, tu], timeout=300)
+        os.unlink(tu)
+        _MACROS[k] = set(re.findall(r"^#define (\w+)", r.stdout, re.M))
+    return _MACROS[k]
+
+
+def dsdl_names(t):
+    return set(t.name_components) | set(field_names(t))
+
+
+def generated_closure(tree, rel):
+    """The generated files a translation unit for `rel` pulls in (transitive #include "...")."""
+    seen, todo = set(), [rel]
+    while todo:
+        x = todo.pop()
+        if x in seen:
+            continue
+        seen.add(x)
+        try:
+            text = open(os.path.join(tree, x), errors="replace").read()
+        except OSError:
+            continue
+        todo += re.findall(r'^\s*#\s*include\s+"([^"]+)"', text, re.M)
+    return seen
+
+
+_NSPROBE = {}
+
+
+def namespace_names_taken_globally(tree, rel, std, types_by_rel):
+    """Namespace components of the types in this TU that cannot be opened as a namespace once the standard headers the generated
+    code includes are in: decided by compiling `namespace X {}` after exactly those #include <...> lines."""
+    closure = generated_closure(tree, rel)
+    comps, sysinc = set(), set()
+    for f in closure:
+        t = types_by_rel.get(f)
+        if t is not None:
+            comps |= set(t.name_components[:-1])
+        try:
+            sysinc |= set(re.findall(r"^\s*#\s*include\s+(<[^>]+>)", open(os.path.join(tree, f), errors="replace").read(), re.M))
+        except OSError:
+            pass
+    comps = sorted(c for c in comps if re.fullmatch(r"[A-Za-z_]\w*", c))
+    k = (std, tuple(comps), tuple(sorted(sysinc)))
+    if k not in _NSPROBE:
+        tu = os.path.join(tree, "_n_%s.cpp" % common.sha(repr(k))[:10])
+        with open(tu, "w") as f:
+            f.write("".join("#include %s\n" % i for i in sorted(sysinc)))
+            f.write("".join("namespace %s {}\n" % c for c in comps))
+        r = common.run(["g++", "-std=" + std, "-fsyntax-only", "-fmax-errors=0", tu], timeout=300)
+        os.unlink(tu)
+        bad_lines = {int(x) for x in re.findall(r"_n_\w+\.cpp:(\d+):\d+: (?:error|warning)", r.stderr)}
+        base = len(sysinc)
+        _NSPROBE[k] = sorted(c for i, c in enumerate(comps) if (base + i + 1) in bad_lines)
+    return _NSPROBE[k]
+
+
+def macro_substituted_names(tree, rel, std, types_by_rel):
+    """DSDL names of the types in this TU that the standard headers included by the generated code define as macros:
+    the compiler then sees a token stream the generator did not write, and nothing it says about this TU can be attributed."""
+    names = set()
+    for f in generated_closure(tree, rel):
+        t = types_by_rel.get(f)
+        if t is not None:
+            names |= dsdl_names(t)
+    return sorted(names & macros_visible(tree, rel, std))
 
 
 def compile_header(args):
@@ -119,15 +206,18 @@ def has_union_with_varray(t):
     return False
 
 
-def classify(lang, diag, t, alltypes, omit, as_cxx=False):
+def classify(lang, diag, t, alltypes, omit, as_cxx=False, macros=None):
     """A known finding = (structural precondition on the input, diagnostic pattern); explains exactly the diagnostics it matches."""
     msg, opt = diag["msg"], diag["opt"]
     if t is None:
         return None
+    if lang == "cpp" and macros is not None:
+        # a DSDL name of this type that the included standard headers define as a macro, used as a token on the diagnosed line
+        hit = [n for n in dsdl_names(t) if re.search(r"\b%s\b" % re.escape(n), diag.get("src", ""))]
+        if hit and any(n in macros() for n in hit):
+            return "cpp-name-spelling-a-standard-library-macro"
     if lang == "cpp" and t.deprecated and "deprecated" in opt + msg and t.short_name in msg:
         return "cpp-deprecated-type-warns-on-itself"
-    if lang == "cpp" and set(field_names(t)) & namespaces_in_scope(t, alltypes) and re.search(r"no member named|is not a class, namespace|does not name a type|has not been declared|not a namespace-name|no type named|expected ';' after alias|qualified name|in namespace|is not a member of|expected nested-name-specifier|before ';' token|has no member named", msg):
-        return "cpp-attribute-named-like-namespace-shadows-it"
     if lang == "c" and as_cxx and opt == "-Wnested-anon-types" and has_union_with_varray(t):
         return "c-union-with-variable-array-in-pedantic-cxx-tu"
     if lang in ("cpp", "c") and opt in ("-Wcomment", "-Wtrigraphs") and any(("\\" in d or "??/" in d) for d in doc_texts(t)):
@@ -329,10 +419,29 @@ def one_set(ctx, idx, cflags, cxxflags):
             continue
         explained = 0
         seen = set()
+        tree = j[0]
+        mechs = []
         for dg in diags:
             t2 = t or m["types_by_rel"].get(dg["file"])
             tt = m["types_by_rel"].get(dg["file"]) or t2
-            mech = classify(m["lang"], dg, tt, None, m["omit"], as_cxx=(m["lang"] == "c" and compiler.endswith("++")))
+            mechs.append(classify(m["lang"], dg, tt, None, m["omit"], as_cxx=(m["lang"] == "c" and compiler.endswith("++")),
+                                  macros=(lambda: macros_visible(tree, rel, std)) if m["lang"] == "cpp" else None))
+        if m["lang"] == "cpp" and diags:
+            subst = macro_substituted_names(tree, rel, std, m["types_by_rel"])
+            if subst:
+                ctx.count("translation_units_with_macro_substituted_dsdl_name")
+                ctx.distinct(("macro-substituted", tuple(subst)))
+                mechs = ["cpp-name-spelling-a-standard-library-macro" for mc in mechs]
+            taken = namespace_names_taken_globally(tree, rel, std, m["types_by_rel"])
+            if taken:
+                ctx.count("translation_units_with_namespace_named_like_global_c_name")
+                ctx.distinct(("namespace-taken", tuple(taken)))
+                mechs = ["cpp-namespace-named-like-global-c-library-name" for mc in mechs]
+        # a diagnostic on the very line of an explained one is its follow-on (e.g. "extra ';'" after "does not name a type")
+        by_line = {(dg["file"], dg["line"]): mc for dg, mc in zip(diags, mechs) if mc}
+        for dg, mech in zip(diags, mechs):
+            t2 = t or m["types_by_rel"].get(dg["file"])
+            mech = mech or by_line.get((dg["file"], dg["line"]))
             key = (mech, dg["opt"], re.sub(r"'[^']*'|\d+", "N", dg["msg"])[:80])
             if key in seen:
                 explained += 1 if mech else 0
@@ -344,7 +453,8 @@ def one_set(ctx, idx, cflags, cxxflags):
         if not diags and rc != 0:
             ctx.refute(None, "%s: %s does not compile with %s (no parsable diagnostic)" % (tag, rel, compiler), dict(witness, config=tag))
     ctx.sample({"set": idx, "roots": roots, "types": [str(t) for t in alltypes][:8]})
-    shutil.rmtree(d, ignore_errors=True)
+    if not os.environ.get("VERIF_KEEP"):
+        shutil.rmtree(d, ignore_errors=True)
 
 
 def run(ctx):
